@@ -658,7 +658,7 @@ def run(ctx):
                "slices before the filter); without a filter exactly min(used_hosts_per_remote_dc, live hosts of the DC)")
     rng = ctx.rng
     fixed_witnesses(ctx)
-    n = ctx.scale(8000, 2400000)
+    n = ctx.scale(8000, 1200000)
     for i in range(n):
         r = rng.random()
         if r < 0.5:
@@ -670,7 +670,7 @@ def run(ctx):
         finish(ctx, hx)
         if i < 3:
             ctx.sample({"policy": describe(hx.stack), "flow": hx.flow, "events": hx.log[:12]})
-    ctx.floor_distinct = 3000 if ctx.quick else 1000000
+    ctx.floor_distinct = 3000 if ctx.quick else 500000
     ctx.floor_counters = {"sequences": 4000, "plans_judged": 60000, "distance_evaluations": 100000, "callbacks_delivered": 30000,
                           "location_updates": 3000, "local_dc_inferences": 300, "plans_with_remote_part": 3000,
                           "sequences_rr": 300, "sequences_dc": 1500, "sequences_wl": 300, "sequences_with_hf": 500,
